@@ -242,7 +242,11 @@ impl<'a> Visitor for PhiVisitor<'a> {
         let z = grid.grids()[0].clone();
         let wf = f.weight_functions(c.t);
         let conv: Arc<dyn Convolver<f64, Ix1>> = ConvolverFFT::plan(&grid, &wf, None);
-        let profs = [funcs::sample_profile(&mut rng, false, length, c.sigma), funcs::sample_profile(&mut rng, true, length, c.sigma)];
+        // a tanh interface, an oscillating profile and a tanh interface against near-vacuum (reaches the low-density
+        // branches of the functionals: n3 / n0 cut-offs, Taylor expansions)
+        let mut dilute = funcs::sample_profile(&mut rng, false, length, c.sigma);
+        dilute.eta_lo = rng.log_range(1e-9, 1e-7);
+        let profs = [funcs::sample_profile(&mut rng, false, length, c.sigma), funcs::sample_profile(&mut rng, true, length, c.sigma), dilute];
         let wds: Vec<Vec<Array2<f64>>> = profs
             .iter()
             .map(|p| conv.weighted_densities(&funcs::density_profile(f.as_ref(), c, p, &z)))
@@ -250,11 +254,14 @@ impl<'a> Visitor for PhiVisitor<'a> {
         let per_profile = if full { 3 } else { 2 };
         // grid points: spread over the interface region / the oscillations
         let mut pts: Vec<(usize, usize)> = Vec::new();
-        for (pi, _) in profs.iter().enumerate() {
+        for (pi, _) in profs.iter().enumerate().take(2) {
             for _ in 0..per_profile {
                 pts.push((pi, npts / 8 + rng.below(3 * npts / 4)));
             }
         }
+        // the dilute side (uniform part next to the low-density end) and the foot of the interface of the third profile
+        pts.push((2, npts / 16));
+        pts.push((2, npts / 4 + rng.below(npts / 8)));
         let lim2 = if full { 3000 } else { 900 };
         for (ci, contrib) in f.contributions().enumerate() {
             let nwd = wds[0][ci].shape()[0];
